@@ -2338,3 +2338,28 @@ func init() {
 		}
 	})
 }
+
+func init() {
+	extend("C09", "(R10) every batch-scan answer of PD is verified to cover the requested ranges before it is used, whoever served it.", func(c *core.Ctx) {
+		a := rule(c, "C09.R10")
+		fn := a.fn(pkgLocate, "RegionCache", "batchScanRegions")
+		if fn == nil {
+			return
+		}
+		n := 0
+		for _, ci := range core.FindCalls(fn, core.CallsMethodNamed("handleRegionInfos", "")) {
+			in := ci.(ssa.Instruction)
+			n++
+			okk, w, hit := condMust(c, fn, nil, func(x ssa.Instruction) bool { return x == in }, func(x ssa.Instruction) bool {
+				cc, ok := x.(ssa.CallInstruction)
+				return ok && calleeName(cc) == "regionsHaveGapInRanges"
+			}, nil)
+			if okk {
+				a.ok(fname(fn)+" verifies the answer covers the ranges before using it", in, "")
+			} else {
+				a.viol(fname(fn)+" verifies the answer covers the ranges before using it", hit, "an answer of PD can be used without the gap verification (e.g. only follower answers are verified): a hole in the answer becomes a hole in the returned locations: "+a.w(w))
+			}
+		}
+		a.checkAt(n == 1, fname(fn)+" use of the answer", a.fnPos(fn), "", "handleRegionInfos call not found")
+	})
+}
